@@ -260,7 +260,17 @@ def run_stack(case, v):
         trace_decoy(case, a, b)
         geo["traced_after_a_medium_with_the_same_boundaries"] = True
     sols = list(LayeredRayTracer(a, b, ice).solutions)
-    no_ray_twice(v, sols, **{"from": a.tolist(), "to": b.tolist()})
+    def noise_bound_of_legs(q_):
+        # sum of the closed-form error bounds of the solution's gradient legs (the same observable as in check_chain)
+        tot_ = 0.0
+        for sp in getattr(q_, "paths", []):
+            li = sp.ice
+            if hasattr(li, "k"):
+                e_ = np.asarray(sp.emitted_direction, float)
+                b_ = float(li.index(float(sp.from_point[2])) * np.hypot(e_[0], e_[1]))
+                tot_ += cancellation_bound(float(li.n0), float(li.k), float(li.a), b_, min(float(sp.from_point[2]), float(sp.to_point[2])), float(getattr(sp, "uniformity_factor", 0.99999)))
+        return tot_
+    no_ray_twice(v, sols, bound_of=noise_bound_of_legs, **{"from": a.tolist(), "to": b.tolist()})
     top_, bot_ = float(case["ice"]["layers"][0]["range"][1]), float(case["ice"]["layers"][-1]["range"][0])
     for p in sols:
         check_chain(v, p, a, b, geo)
